@@ -69,11 +69,14 @@ def run(prop, level, rule):
     scratch = build.build("pure")
     rnd = random.Random(seed())
     seqs, r0 = call_sequences(3 if q else 4)
-    nprob = 150 if q else 1200
+    nprob = 400 if q else 2000
     problems = [od.gen_problem(rnd, i) for i in range(nprob)]
     jobs = []
+    # half of the sampled sequences are drawn from those in which solver calls interact with flag changes / reloads (at least two
+    # step/solve calls and one enable/disable/reload/clear_log): contracts about "the most recent point" vs "some earlier point" live there
+    rich = [s for s in seqs if sum(c["ev"] in ("Solve", "Step") for c in s) >= 2 and any(c["ev"] in ("Enable", "Disable", "Reload", "ClearLog") for c in s)] or seqs
     for p in problems:
-        for s in rnd.sample(seqs, 8 if q else 24):
+        for s in rnd.sample(seqs, 4 if q else 12) + rnd.sample(rich, 4 if q else 12):
             jobs.append((p, s, None))
         # sequences that contain a solve / a step, with the user's action raising at every call position
         withsolve = [s for s in seqs if any(c["ev"] in ("Solve", "Step") for c in s)]
